@@ -262,6 +262,10 @@ def rule_b4(ctx, scope: Set[str]) -> None:
     ctx.rule("C06-B4", "no pipeline-reachable function mutates module/class level containers (lazy-constant idiom excepted) or a mutable default argument", 50)
     prog = ctx.prog
     MUT = {"append", "extend", "update", "add", "insert", "pop", "remove", "clear", "setdefault", "__setitem__"}
+    from ..shared import SharedFlow
+
+    sflow = SharedFlow(ctx, scope, long_lived=[i.cls for i in long_lived_instances(ctx)])
+    ctx.note("C06-B4: shared containers followed through parameters %s and attributes %s" % ({k.split(".")[-1]: sorted(v) for k, v in sorted(sflow.shared_params.items())}, {k.split(".")[-1]: sorted(v) for k, v in sorted(sflow.shared_attrs.items())}))
     for q in sorted(scope):
         f = prog.functions.get(q)
         if f is None or not q.startswith("synrbl."):
@@ -337,7 +341,12 @@ def rule_b4(ctx, scope: Set[str]) -> None:
                         for t in (n.targets if isinstance(n, ast.Assign) else [n.target]):
                             if isinstance(t, ast.Subscript) and isinstance(t.value, ast.Name) and t.value.id == pname:
                                 bad.append((n, "store into the mutable default argument %s" % pname))
-        ctx.instance("C06-B4", q.split("synrbl.", 1)[-1], f.loc(), ok=not bad, nontrivial=bool(bad) or bool(globals_declared) or f.is_classmethod)
+        for n, why in sflow.mutations(f):
+            if f.name == "__init__" and "built once in __init__" in why:
+                continue  # the constructor fills the container it has just created
+            if not any(n is b for b, _ in bad):
+                bad.append((n, why + " alias"))
+        ctx.instance("C06-B4", q.split("synrbl.", 1)[-1], f.loc(), ok=not bad, nontrivial=bool(bad) or bool(globals_declared) or f.is_classmethod or bool(sflow.aliases(f)))
         for n, why in bad:
             ctx.finding("C06-B4", "%s:shared-state:%s" % (q.split("synrbl.", 1)[-1], why.split()[-1]), f.loc(n), "%s on the pipeline path: results of one reaction can depend on reactions processed before it" % why)
     # class-level *empty* mutable containers are shared state waiting to be filled
@@ -458,6 +467,105 @@ def rule_b6(ctx, scope: Set[str]) -> None:
     ctx.require(bool(_lossy_constructs(fxf)), "lossy-key detector fixture did not fire")
 
 
+def long_lived_instances(ctx):
+    """The Balancer and every stage object stored (transitively) in its attributes."""
+    out, work, seen = [], [ctx.balancer], set()
+    while work:
+        i = work.pop()
+        if id(i) in seen:
+            continue
+        seen.add(id(i))
+        out.append(i)
+        work.extend(i.attr_inst.values())
+    return out
+
+
+def rule_b7(ctx, reach: Set[str], rule_id: str = "C06-B7", reader_filter=None) -> None:
+    """Objects that outlive one batch (the Balancer and the stage objects it
+    stores) keep no run state: an attribute assigned on the pipeline path is
+    either read only after an assignment that dominates the read in the same
+    method, or it is (re)assigned on every path of its writer, so that no value
+    of an earlier batch / call survives into a later one."""
+    ctx.rule(rule_id, "attributes of long-lived stage objects written on the pipeline path are re-assigned on every path before they are read (no state of an earlier batch survives)", 0)
+    prog = ctx.prog
+    MUT = {"append", "extend", "update", "add", "insert", "setdefault"}
+    classes = {}
+    for inst in long_lived_instances(ctx):
+        for c in prog.mro(inst.cls):
+            classes[c.qualname] = c
+    n_cls = 0
+    for cq, cls in sorted(classes.items()):
+        n_cls += 1
+        methods = [m for m in cls.methods.values() if m.qualname in reach and m.name != "__init__" and m.params]
+        writes = {}  # attr -> [(method, stmt, plain?)]
+        reads = {}
+        for m in methods:
+            selfn = m.params[0]
+            for n in own_nodes(m.node):
+                if isinstance(n, ast.Attribute) and isinstance(n.value, ast.Name) and n.value.id == selfn:
+                    par = getattr(n, "_parent", None)
+                    if isinstance(n.ctx, ast.Store):
+                        stmt = par
+                        while stmt is not None and not isinstance(stmt, ast.stmt):
+                            stmt = getattr(stmt, "_parent", None)
+                        plain = isinstance(stmt, (ast.Assign, ast.AnnAssign)) and not isinstance(stmt, ast.AugAssign)
+                        writes.setdefault(n.attr, []).append((m, stmt, plain))
+                        if isinstance(stmt, ast.AugAssign):
+                            reads.setdefault(n.attr, []).append((m, n))
+                    elif isinstance(par, ast.Subscript) and par.value is n and isinstance(par.ctx, ast.Store):
+                        stmt = par
+                        while stmt is not None and not isinstance(stmt, ast.stmt):
+                            stmt = getattr(stmt, "_parent", None)
+                        writes.setdefault(n.attr, []).append((m, stmt, False))
+                        reads.setdefault(n.attr, []).append((m, n))
+                    elif isinstance(par, ast.Attribute) and par.value is n and par.attr in MUT and isinstance(getattr(par, "_parent", None), ast.Call) and par._parent.func is par:
+                        stmt = par
+                        while stmt is not None and not isinstance(stmt, ast.stmt):
+                            stmt = getattr(stmt, "_parent", None)
+                        writes.setdefault(n.attr, []).append((m, stmt, False))
+                        reads.setdefault(n.attr, []).append((m, n))
+                    else:
+                        reads.setdefault(n.attr, []).append((m, n))
+        for attr, ws in sorted(writes.items()):
+            if attr in cls.methods or any(attr in c.methods for c in prog.mro(cls)):
+                continue  # property setter target etc.
+            rs = reads.get(attr, [])
+            if reader_filter is not None and not any(reader_filter(m) for m, _ in rs):
+                continue
+            cfgs = {}
+            bad = None
+            plain_nodes = {}
+            for m, stmt, plain in ws:
+                if plain:
+                    plain_nodes.setdefault(m.qualname, []).append(stmt)
+            # methods that assign the attribute on every path to their normal exit
+            total = set()
+            for mq, stmts in plain_nodes.items():
+                m = prog.functions[mq]
+                cfg = cfgs.setdefault(mq, CFG(m.node))
+                ids = {cfg.node_of(s) for s in stmts}
+                ok, _ = cfg.every_path_to_exit_passes(cfg.entry, lambda nd, ids=ids: nd.id in ids)
+                if ok:
+                    total.add(mq)
+            for m, n in rs:
+                cfg = cfgs.setdefault(m.qualname, CFG(m.node))
+                rid = cfg.node_of(n)
+                doms = [cfg.node_of(s) for s in plain_nodes.get(m.qualname, [])]
+                if rid is not None and any(d is not None and d != rid and cfg.dominates(d, rid) for d in doms):
+                    continue
+                # read of a value assigned elsewhere: some other method must assign it on all its paths
+                others = [mq for mq in plain_nodes if mq != m.qualname]
+                if others and all(mq in total for mq in others):
+                    continue
+                bad = (m, n)
+                break
+            ctx.instance(rule_id, "%s.%s: %d run-time write(s), %d read(s); writers assigning on every path: %s" % (cls.name, attr, len(ws), len(rs), sorted(x.rsplit(".", 1)[-1] for x in total)), ws[0][0].loc(ws[0][1]), ok=bad is None)
+            if bad is not None:
+                m, n = bad
+                ctx.finding(rule_id, "%s.%s:run-state" % (cq.split("synrbl.", 1)[-1], attr), m.loc(n), "%s.%s is written while a batch is processed and read in %s without an assignment that is guaranteed to precede the read in the same call: %s objects live across batches and calls, so a value computed for an earlier batch can be applied to a later one" % (cls.name, attr, m.name, cls.name))
+    ctx.note("%s: %d long-lived classes inspected (%s)" % (rule_id, n_cls, ", ".join(sorted(c.name for c in classes.values()))))
+
+
 def rule_b5(ctx, pl: Pipeline) -> None:
     ctx.rule("C06-B5", "statistics are int counts written by exactly one stage call (additive over batches)", 7)
     writers, key_site, _ = c18.stat_writers(ctx, pl)
@@ -496,3 +604,4 @@ def check(ctx) -> None:
     rule_b4(ctx, reach)
     rule_b5(ctx, pl)
     rule_b6(ctx, reach)
+    rule_b7(ctx, ctx.res.reachable(["synrbl.balancing.Balancer.rebalance"], ctx.graph))
